@@ -132,12 +132,35 @@ struct RunResult {
 };
 
 // Runs computeCellOrder (if wantOrder) and Circuit::legalize on a copy in a forked child.
-inline RunResult runLegalize(const Circuit &circ, const LParams &lp, bool wantOrder) {
+//
+// With `prior` (a circuit with the same number of cells) the measured call runs on an object with a PAST: the child
+// starts from `prior`, calls computeRows() and legalize() on it (result ignored), then brings the very same object to
+// the public state of `circ` through the setters and only then runs the measured sequence.  The property quantifies
+// over circuits, not over how the object got there, so every answer must equal the fresh-object answer (and the
+// model's): anything remembered inside the object across the setters (a cached row set, stale bookkeeping) shows up.
+inline RunResult runLegalize(const Circuit &circ, const LParams &lp, bool wantOrder, const Circuit *prior = nullptr) {
   RunResult r;
   std::string outp;
   r.status = vh::isolated(
       [&](std::ostream &os) {
-        Circuit c = circ;
+        Circuit c = prior ? *prior : circ;
+        if (prior) {
+          try { (void)c.computeRows(); } catch (const std::exception &) {}
+          try { c.legalize(toColo(lp)); } catch (const std::exception &) {}
+          try { (void)c.computeRows(); } catch (const std::exception &) {}
+          // only the setters that are needed (compared with the object's state after its past): a setter that happens to
+          // refresh some internal state must not mask another one that forgets to
+          if (c.cellX_ != circ.cellX_) c.setCellX(circ.cellX_);
+          if (c.cellY_ != circ.cellY_) c.setCellY(circ.cellY_);
+          if (c.cellOrientation_ != circ.cellOrientation_) c.setCellOrientation(circ.cellOrientation_);
+          if (c.cellIsFixed_ != circ.cellIsFixed_) c.setCellIsFixed(circ.cellIsFixed_);
+          if (c.cellIsObstruction_ != circ.cellIsObstruction_) c.setCellIsObstruction(circ.cellIsObstruction_);
+          if (c.cellWidth_ != circ.cellWidth_) c.setCellWidth(circ.cellWidth_);
+          if (c.cellHeight_ != circ.cellHeight_) c.setCellHeight(circ.cellHeight_);
+          if (c.cellRowPolarity_ != circ.cellRowPolarity_) c.setCellRowPolarity(circ.cellRowPolarity_);
+          if (vc::circuitString(c) != vc::circuitString(circ)) c.setRows(circ.rows_);
+          if (vc::circuitString(c) != vc::circuitString(circ)) os << "H history-restore-mismatch\n";
+        }
         ColoquinteParameters p = toColo(lp);
         if (wantOrder) {
           Probe pr(Legalizer::fromIspdCircuit(c));
@@ -168,6 +191,7 @@ inline RunResult runLegalize(const Circuit &circ, const LParams &lp, bool wantOr
     else if (ln[0] == 'L') r.legal = body;
     else if (ln[0] == 'T') r.orientMsg = body;
     else if (ln[0] == 'U') r.unchanged = body == "1";
+    else if (ln[0] == 'H') r.diag += " " + body;
     else if (ln[0] == 'C') {
       std::string o;
       for (size_t i = 0; i < body.size(); ++i) {
@@ -177,6 +201,37 @@ inline RunResult runLegalize(const Circuit &circ, const LParams &lp, bool wantOr
     }
   }
   return r;
+}
+
+// A past for the object: `circ` with some cells elsewhere / turned / with other flags, a cell resized, a row dropped or shifted.
+inline Circuit genPrior(vh::Rng &g, const Circuit &circ) {
+  Circuit p = circ;
+  int n = p.nbCells();
+  std::vector<int> x = p.cellX_, y = p.cellY_, w = p.cellWidth_, h = p.cellHeight_;
+  std::vector<bool> fx = p.cellIsFixed_, ob = p.cellIsObstruction_;
+  std::vector<CellOrientation> orr = p.cellOrientation_;
+  Rectangle area = p.computePlacementArea();
+  // which attribute classes differ in the past: positions always; the others one time in four each, so that most
+  // histories are restored through setCellX / setCellY (and setCellOrientation) alone
+  bool dOr = g.chance(1, 4), dFlags = g.chance(1, 4), dSize = g.chance(1, 4), dRows = g.chance(1, 4);
+  for (int i = 0; i < n; ++i) {
+    bool fixed = fx[i];
+    if (g.chance(fixed ? 2 : 1, 3)) {  // fixed cells (the obstructions) move most often: they shape the free rows
+      x[i] = area.minX + g.range(-20, std::max(1, area.width()));
+      y[i] = area.minY + g.range(-20, std::max(1, area.height()));
+    }
+    if (dOr && g.chance(1, 3)) orr[i] = CellOrientation::N;
+    if (dFlags && g.chance(1, 4)) fx[i] = !fx[i];
+    if (dFlags && g.chance(1, 4)) ob[i] = !ob[i];
+    if (dSize && fixed && g.chance(1, 2)) { w[i] = std::max(1, w[i] + (int)g.range(-3, 6)); }
+  }
+  p.setCellX(x); p.setCellY(y); p.setCellOrientation(orr); p.setCellIsFixed(fx); p.setCellIsObstruction(ob); p.setCellWidth(w); p.setCellHeight(h);
+  if (dRows && p.nbRows() > 1) {
+    std::vector<Row> rows = p.rows_;
+    rows.erase(rows.begin() + g.range(0, (long long)rows.size() - 1));
+    p.setRows(rows);
+  }
+  return p;
 }
 
 // ---- facts about a circuit used by the oracles (independent of the library's row code) ----
